@@ -213,6 +213,7 @@ class Sched:
         self.overlap = 0
         self.sites = set()
         self.miss_calls = 0
+        self.stalls_fired = 0
         self.missing = [None] * n       # symbol a thread is computing on the cache-miss path
         self.double_miss = 0            # two threads on the miss path for the same symbol at once
         self.in_aug = [False] * n
@@ -221,11 +222,14 @@ class Sched:
         self._xi = 0                    # index into explicit switches
         self._ei = 0
         self.gran_line = policy.get("gran") == "line"
-        if policy["kind"] == "pct" and explicit is None:
+        if policy["kind"] in ("pct", "stall") and explicit is None:
             self.prio = list(range(n))
             rng.shuffle(self.prio)
-            self.change = sorted(policy["change_points"])
+            self.change = sorted(policy.get("change_points", ()))
             self._low = -1
+            self.fcount = [dict() for _ in range(n)]     # events seen per (thread, code object)
+            self.stalls_left = policy.get("stalls", 0)
+            self.c = policy.get("c", 0.0)
         self.p = policy.get("p", 0.0)
 
     # -- choice helpers
@@ -295,6 +299,21 @@ class Sched:
                     return to
             return None
         kind = self.policy["kind"]
+        if kind == "stall":
+            # "slow node" fault: the running thread is stalled (priority below everyone, PCT style)
+            # at an event drawn with probability c / (events it has spent in this function so far),
+            # so rarely executed code gets as much stall mass as hot loops
+            fc = self.fcount[tid]
+            k = fc.get(code, 0) + 1
+            fc[code] = k
+            if self.stalls_left and self.rng.random() * k < self.c:
+                self.stalls_left -= 1
+                self.prio[tid] = self._low
+                self._low -= 1
+                self.stalls_fired += 1
+            cands = self.runnable()
+            best = max(cands, key=lambda i: self.prio[i])
+            return best if best != tid else None
         if kind == "pct":
             if self.change and self.step >= self.change[0]:
                 self.change.pop(0)
@@ -325,7 +344,7 @@ class Sched:
                 if to in cands:
                     return to
             return cands[0]
-        if self.policy["kind"] == "pct":
+        if self.policy["kind"] in ("pct", "stall"):
             return max(cands, key=lambda i: self.prio[i])
         return self.rng.choice(cands)
 
@@ -362,7 +381,7 @@ class Sched:
         if self.explicit is not None:
             to = self.explicit.get("first", cands[0])
             return to if to in cands else cands[0]
-        if self.policy["kind"] == "pct":
+        if self.policy["kind"] in ("pct", "stall"):
             return max(cands, key=lambda i: self.prio[i])
         return self.rng.choice(cands)
 
@@ -423,7 +442,7 @@ def run(sf, spec):
         "steps": S.step, "tsteps": S.tsteps, "switches": S.switches, "exits": S.exits, "first": first,
         "lock_ops": S.lock_ops, "late": S.late, "window_switches": S.window_switches,
         "overlap": S.overlap, "sites": sorted(S.sites), "miss_calls": S.miss_calls,
-        "double_miss": S.double_miss, "double_aug": S.double_aug,
+        "double_miss": S.double_miss, "double_aug": S.double_aug, "stalls_fired": S.stalls_fired,
         "digest": h.hexdigest(),
     }
 
